@@ -100,4 +100,6 @@ Selected == SampleMod = 1 \/ Len(H) < MaxSteps \/ Len(ToString(<<D0, H>>)) % Sam
 EmitCases ==
   ~Selected \/
   PrintT(<<"REPLAY", ToJson([vers |-> [k \in 1..(Len(H) + 1) |-> Ver(D0, H, k - 1)], cases |-> Cases])>>)
+EmitMeta == PrintT(<<"META", ToJson([followers |-> FollowerSuffixes])>>)
+ASSUME EmitMeta
 =============================================================================
